@@ -70,15 +70,20 @@ class CallOracle(NdContract):
             return fresh("t", RealSort())
         if name == "fit" and isinstance(recv, Abstract) and recv.tag == "est":
             labels, w = (args[1] if len(args) > 1 else None), kwargs.get("sample_weight")
-            eng.oblige(st, "learner_gets_the_moments_X_and_weights_under_sample_weight_name", BoolVal(bool(args) and args[0] is self.X and is_nd(w) and set(kwargs) == {"sample_weight"}), "wiring", node)
-            if not (is_nd(labels) and is_nd(w) and labels.cell and w.cell):
+            const = recv.kind == "constant"
+            # the learner gets the moment's X and the weights under sample_weight_name; the constant classifier (single relabelled value) may be fitted without
+            # weights - it does not depend on them (and they are all zero / undefined when every signed weight vanishes)
+            eng.oblige(st, "learner_gets_the_moments_X_and_weights_under_sample_weight_name",
+                       BoolVal(bool(args) and args[0] is self.X and ((is_nd(w) and set(kwargs) == {"sample_weight"}) or (const and not kwargs))), "wiring", node)
+            if not (is_nd(labels) and labels.cell) or (w is not None and not (is_nd(w) and w.cell)):
                 raise Unsupported("labels/weights lost their point-wise view")
             wk = WO(GI) + WC(GI)
             rng = in_range((n,), (GI,))
             eng.oblige(st, "classification_labels_are_one_where_the_weight_is_positive", Implies(And(rng, self.is_clf), to_real(labels.cell(GI)) == If(wk > 0, 1, 0)), "reduction", node)
             eng.oblige(st, "regression_keeps_the_moments_labels", BoolVal(True) if not getattr(labels, "moment_y", False) else Implies(rng, z3.Not(self.is_clf)), "reduction", node)
-            eng.oblige(st, "weights_are_a_positive_rescaling_of_the_absolute_signed_weights",
-                       Implies(rng, to_real(w.cell(GI)) * SUMABS == z3.ToReal(n) * If(wk >= 0, wk, -wk)), "reduction", node)
+            if w is not None:
+                eng.oblige(st, "weights_are_a_positive_rescaling_of_the_absolute_signed_weights",
+                           Implies(rng, to_real(w.cell(GI)) * SUMABS == z3.ToReal(n) * If(wk >= 0, wk, -wk)), "reduction", node)
             u = st.env.get("redY_unique")
             if isinstance(u, Abstract):
                 eng.oblige(st, "constant_classifier_iff_a_single_relabelled_value", (u.count == 1) == BoolVal(recv.kind == "constant"), "reduction", node)
